@@ -329,6 +329,29 @@ fn check_diags(db: &RootDatabase, inputs: &[CrateInput]) -> Result<(), String> {
     if failed { Err(s.chars().take(3000).collect()) } else { Ok(()) }
 }
 
+fn run_one(runner: &SierraCasmRunner, fname: &str, args: Vec<Arg>, shape: &Shape) -> RRes {
+    let r = vcommon::catch(std::panic::AssertUnwindSafe(|| {
+        let f = runner.find_function(fname).map_err(|e| format!("{e:?}"))?;
+        runner
+            .run_function_with_starknet_context(f, args.clone(), None, StarknetState::default())
+            .map_err(|e| format!("{e:?}"))
+    }));
+    match r {
+        Ok(Ok(res)) => match res.value {
+            RunResultValue::Success(cells) => {
+                let cells: Vec<BigInt> = cells.iter().map(|f| f.to_bigint()).collect();
+                match decode(shape, &cells) {
+                    Some(v) => RRes::Ok(v),
+                    None => RRes::Bad(format!("cannot decode {:?} as {:?}", cells, shape)),
+                }
+            }
+            RunResultValue::Panic(data) => RRes::Panic(data.iter().map(|f| f.to_bigint()).collect()),
+        },
+        Ok(Err(e)) => RRes::Bad(e.chars().take(300).collect()),
+        Err(e) => RRes::Bad(format!("runner panicked: {e} at {}", vcommon::last_panic_location())),
+    }
+}
+
 /// Evaluates one chunk of cases: one consts crate, one twins crate (compiled twice).
 pub fn eval_chunk(dir: &str, idx: usize, cases: Vec<Case>) -> Result<Vec<Done>, String> {
     // ---------- program text ----------
@@ -409,6 +432,8 @@ pub fn eval_chunk(dir: &str, idx: usize, cases: Vec<Case>) -> Result<Vec<Done>, 
     // ---------- twins: compile with and without const folding, run ----------
     let p = vcommon::stark_prime();
     let mut runs: Vec<Vec<(&'static str, RRes)>> = vec![vec![]; cases.len()];
+    // number of Sierra statements of g_k compiled with / without const folding
+    let mut g_size: Vec<[usize; 2]> = vec![[0, 0]; cases.len()];
     for (skip, names) in [(false, ("args/fold", "lit/fold")), (true, ("args/nofold", "lit/nofold"))] {
         let mut db = build_db(skip);
         let inputs = setup_project(&mut db, Path::new(&twins_path)).map_err(|e| format!("{e:?}"))?;
@@ -424,6 +449,22 @@ pub fn eval_chunk(dir: &str, idx: usize, cases: Vec<Case>) -> Result<Vec<Done>, 
         let replacer = DebugReplacer { db };
         replacer.enrich_function_names(&mut sierra);
         let sierra = replacer.apply(&sierra);
+        {
+            let mut entries: Vec<(usize, String)> = sierra
+                .funcs
+                .iter()
+                .map(|f| (f.entry_point.0, f.id.debug_name.as_ref().map(|s| s.to_string()).unwrap_or_default()))
+                .collect();
+            entries.sort();
+            for (i, (start, name)) in entries.iter().enumerate() {
+                let end = entries.get(i + 1).map(|e| e.0).unwrap_or(sierra.statements.len());
+                if let Some(k) = name.rsplit("::g_").next().and_then(|s| s.parse::<usize>().ok()) {
+                    if name.contains("::g_") && k < g_size.len() {
+                        g_size[k][skip as usize] = end - start;
+                    }
+                }
+            }
+        }
         let runner = SierraCasmRunner::new(sierra, None, Default::default(), None)
             .map_err(|e| format!("twins_{idx}: runner: {e:?}"))?;
         let to_args = |v: &Vec<BigInt>| -> Vec<Arg> {
@@ -438,28 +479,57 @@ pub fn eval_chunk(dir: &str, idx: usize, cases: Vec<Case>) -> Result<Vec<Done>, 
                 fns.push((format!("::g_{k}"), to_args(gargs), names.1));
             }
             for (fname, args, vname) in fns {
-                let r = vcommon::catch(std::panic::AssertUnwindSafe(|| {
-                    let f = runner.find_function(&fname).map_err(|e| format!("{e:?}"))?;
-                    runner
-                        .run_function_with_starknet_context(f, args.clone(), None, StarknetState::default())
-                        .map_err(|e| format!("{e:?}"))
-                }));
-                let rr = match r {
-                    Ok(Ok(res)) => match res.value {
-                        RunResultValue::Success(cells) => {
-                            let cells: Vec<BigInt> = cells.iter().map(|f| f.to_bigint()).collect();
-                            match decode(&c.shape, &cells) {
-                                Some(v) => RRes::Ok(v),
-                                None => RRes::Bad(format!("cannot decode {:?} as {:?}", cells, c.shape)),
-                            }
-                        }
-                        RunResultValue::Panic(data) => RRes::Panic(data.iter().map(|f| f.to_bigint()).collect()),
-                    },
-                    Ok(Err(e)) => RRes::Bad(e.chars().take(300).collect()),
-                    Err(e) => RRes::Bad(format!("runner panicked: {e} at {}", vcommon::last_panic_location())),
-                };
+                let rr = run_one(&runner, &fname, args, &c.shape);
                 runs[k].push((vname, rr));
             }
+        }
+    }
+    // ---------- the const items that evaluated, used at run time: fn u_k() -> R { A_k } ----------
+    // (materialisation of the const value: Sierra const types / const_as_immediate / const_as_box)
+    let use_ks: Vec<usize> = cases
+        .iter()
+        .enumerate()
+        .filter(|(k, c)| {
+            c.const_expr.is_some()
+                && c1.get(k).map(|r| r.val.is_some() && r.diags.is_empty()).unwrap_or(false)
+        })
+        .map(|(k, _)| k)
+        .collect();
+    if !use_ks.is_empty() {
+        let mut uses = String::from(PRELUDE);
+        let mut seen: BTreeMap<String, ()> = BTreeMap::new();
+        for &k in &use_ks {
+            let c = &cases[k];
+            let f = if c.feature { crate::cases::FEATURES } else { "" };
+            for (name, def) in &c.items {
+                if seen.insert(name.clone(), ()).is_none() {
+                    writeln!(uses, "{def}").unwrap();
+                }
+            }
+            writeln!(uses, "{f}const A_{k}: {} = {};", c.rty, c.const_expr.as_ref().unwrap()).unwrap();
+            writeln!(uses, "fn u_{k}() -> {} {{ A_{k} }}", c.rty).unwrap();
+        }
+        let uses_path = format!("{cdir}/uses_{idx}.cairo");
+        std::fs::write(&uses_path, &uses).map_err(|e| e.to_string())?;
+        let mut db = build_db(false);
+        let inputs = setup_project(&mut db, Path::new(&uses_path)).map_err(|e| format!("{e:?}"))?;
+        check_diags(&db, &inputs).map_err(|e| format!("uses_{idx} does not compile: {e}"))?;
+        let db = &db;
+        let crate_ids = CrateInput::into_crate_ids(db, inputs);
+        let prog = vcommon::catch(std::panic::AssertUnwindSafe(|| {
+            db.get_sierra_program(crate_ids).to_option().map(|p| p.clone())
+        }))
+        .map_err(|e| format!("uses_{idx}: compiler panic {e} at {}", vcommon::last_panic_location()))?
+        .ok_or_else(|| format!("uses_{idx}: no sierra program"))?;
+        let mut sierra = prog.program;
+        let replacer = DebugReplacer { db };
+        replacer.enrich_function_names(&mut sierra);
+        let sierra = replacer.apply(&sierra);
+        let runner = SierraCasmRunner::new(sierra, None, Default::default(), None)
+            .map_err(|e| format!("uses_{idx}: runner: {e:?}"))?;
+        for &k in &use_ks {
+            let rr = run_one(&runner, &format!("::u_{k}"), vec![], &cases[k].shape);
+            runs[k].push(("const/use", rr));
         }
     }
     Ok(cases
@@ -473,9 +543,10 @@ pub fn eval_chunk(dir: &str, idx: usize, cases: Vec<Case>) -> Result<Vec<Done>, 
                 "args/fold" => 0,
                 "args/nofold" => 1,
                 "lit/fold" => 2,
-                _ => 3,
+                "lit/nofold" => 3,
+                _ => 4,
             });
-            Done { c1: c1.remove(&k), c2: c2v, runs: rs, case }
+            Done { c1: c1.remove(&k), c2: c2v, runs: rs, g_size: g_size[k], case }
         })
         .collect())
 }
